@@ -396,55 +396,56 @@ theorem getF_eq (x off size : Nat) : getF x off size = x / 2 ^ off % 2 ^ size :=
   unfold getF
   rw [Nat.one_shiftLeft, Nat.and_two_pow_sub_one_eq_mod, Nat.shiftRight_eq_div_pow]
 
+/-! The value lemmas are proved in two steps so that a harmless rewrite of the Python source (other order of the `|`
+    operands, one expression instead of `|=` statements) does not break them: (1) whatever OR-tree the translation produces
+    equals the canonical one up to associativity / commutativity (`ac_rfl` over opaque shifted atoms), (2) the canonical
+    OR-tree of disjoint fields is their sum. -/
+
+theorem createMeta_or (a b c : Nat) :
+    AhabConsts.createMeta a b c = .ok ((a ||| b <<< 10 ||| c <<< 20 : Nat) : Int) := by
+  simp only [AhabConsts.createMeta, pyShl_nat, pyOr_nat, Int.reduceToNat]
+  try (refine congrArg (fun n : Nat => (Except.ok (n : Int) : PyRes Int)) ?_
+       generalize b <<< 10 = x; generalize c <<< 20 = y; ac_rfl)
+
 theorem createMeta_val (a b c : Nat) (ha : a < 2 ^ 10) (hb : b < 2 ^ 10) :
     AhabConsts.createMeta a b c = .ok ((a + b * 2 ^ 10 + c * 2 ^ 20 : Nat) : Int) := by
-  simp only [AhabConsts.createMeta, pyShl_nat, pyOr_nat]
-  have e1 : (a ||| b <<< (10 : Int).toNat) = a + b * 2 ^ 10 := or_shl a b 10 ha
-  have e2 : ((a + b * 2 ^ 10) ||| c <<< (20 : Int).toNat) = a + b * 2 ^ 10 + c * 2 ^ 20 := or_shl _ c 20 (by omega)
-  simp only [e1, e2]
+  rw [createMeta_or, or_shl a b 10 ha, or_shl _ c 20 (by omega)]
+
+theorem createFlagsV1_or (ty core h boot : Nat) (enc : Bool) :
+    AhabConsts.createFlagsV1 ty core h enc boot =
+      .ok ((ty ||| core <<< 4 ||| h <<< 8 ||| (if enc then 1 else 0) <<< 11 ||| boot <<< 16 : Nat) : Int) := by
+  cases enc
+  · simp only [AhabConsts.createFlagsV1, Bool.false_eq_true, if_false, pyShl_nat,
+      show ((0 : Int)) = ((0 : Nat) : Int) from rfl, pyOr_nat, Int.reduceToNat, Nat.zero_shiftLeft, Nat.or_zero, Nat.zero_or]
+    try (refine congrArg (fun n : Nat => (Except.ok (n : Int) : PyRes Int)) ?_
+         generalize core <<< 4 = x; generalize h <<< 8 = y; generalize boot <<< 16 = z; ac_rfl)
+  · simp only [AhabConsts.createFlagsV1, if_true, show ((1 : Int)) = ((1 : Nat) : Int) from rfl, pyShl_nat, pyOr_nat, Int.reduceToNat]
+    try (refine congrArg (fun n : Nat => (Except.ok (n : Int) : PyRes Int)) ?_
+         generalize core <<< 4 = x; generalize h <<< 8 = y; generalize boot <<< 16 = z; generalize 1 <<< 11 = w; ac_rfl)
 
 theorem createFlagsV1_val (ty core h boot : Nat) (enc : Bool) (ht : ty < 2 ^ 4) (hc : core < 2 ^ 4) (hh : h < 2 ^ 3) :
     AhabConsts.createFlagsV1 ty core h enc boot =
       .ok ((ty + core * 2 ^ 4 + h * 2 ^ 8 + (if enc then 1 else 0) * 2 ^ 11 + boot * 2 ^ 16 : Nat) : Int) := by
-  have e1 : (ty ||| core <<< (4 : Int).toNat) = ty + core * 2 ^ 4 := or_shl ty core 4 ht
-  have e2 : ((ty + core * 2 ^ 4) ||| h <<< (8 : Int).toNat) = ty + core * 2 ^ 4 + h * 2 ^ 8 := or_shl _ h 8 (by omega)
+  have he : (if enc = true then 1 else 0 : Nat) ≤ 1 := by cases enc <;> simp
+  rw [createFlagsV1_or, or_shl ty core 4 ht, or_shl _ h 8 (by omega), or_shl _ _ 11 (by omega), or_shl _ boot 16 (by omega)]
+
+theorem createFlagsV2_or (ty core h boot : Nat) (enc : Bool) :
+    AhabConsts.createFlagsV2 ty core h enc boot =
+      .ok ((ty ||| core <<< 4 ||| h <<< 8 ||| (if enc then 1 else 0) <<< 12 ||| boot <<< 16 : Nat) : Int) := by
   cases enc
-  · have e3 : ((ty + core * 2 ^ 4 + h * 2 ^ 8) ||| 0) = ty + core * 2 ^ 4 + h * 2 ^ 8 := Nat.or_zero _
-    have e4 : ((ty + core * 2 ^ 4 + h * 2 ^ 8) ||| boot <<< (16 : Int).toNat) = ty + core * 2 ^ 4 + h * 2 ^ 8 + boot * 2 ^ 16 :=
-      or_shl _ boot 16 (by omega)
-    simp only [AhabConsts.createFlagsV1, pyShl_nat, pyOr_nat, Bool.false_eq_true, if_false]
-    rw [show ((0 : Int)) = ((0 : Nat) : Int) from rfl]
-    simp only [pyOr_nat, e1, e2, e3, e4]
-    simp
-  · have e3 : ((ty + core * 2 ^ 4 + h * 2 ^ 8) ||| 1 <<< (11 : Int).toNat) = ty + core * 2 ^ 4 + h * 2 ^ 8 + 1 * 2 ^ 11 :=
-      or_shl _ 1 11 (by omega)
-    have e4 : ((ty + core * 2 ^ 4 + h * 2 ^ 8 + 1 * 2 ^ 11) ||| boot <<< (16 : Int).toNat) =
-        ty + core * 2 ^ 4 + h * 2 ^ 8 + 1 * 2 ^ 11 + boot * 2 ^ 16 := or_shl _ boot 16 (by omega)
-    simp only [AhabConsts.createFlagsV1, if_true]
-    rw [show ((1 : Int)) = ((1 : Nat) : Int) from rfl]
-    simp only [pyShl_nat, pyOr_nat, e1, e2, e3, e4]
+  · simp only [AhabConsts.createFlagsV2, Bool.false_eq_true, if_false, pyShl_nat,
+      show ((0 : Int)) = ((0 : Nat) : Int) from rfl, pyOr_nat, Int.reduceToNat, Nat.zero_shiftLeft, Nat.or_zero, Nat.zero_or]
+    try (refine congrArg (fun n : Nat => (Except.ok (n : Int) : PyRes Int)) ?_
+         generalize core <<< 4 = x; generalize h <<< 8 = y; generalize boot <<< 16 = z; ac_rfl)
+  · simp only [AhabConsts.createFlagsV2, if_true, show ((1 : Int)) = ((1 : Nat) : Int) from rfl, pyShl_nat, pyOr_nat, Int.reduceToNat]
+    try (refine congrArg (fun n : Nat => (Except.ok (n : Int) : PyRes Int)) ?_
+         generalize core <<< 4 = x; generalize h <<< 8 = y; generalize boot <<< 16 = z; generalize 1 <<< 12 = w; ac_rfl)
 
 theorem createFlagsV2_val (ty core h boot : Nat) (enc : Bool) (ht : ty < 2 ^ 4) (hc : core < 2 ^ 4) (hh : h < 2 ^ 4) :
     AhabConsts.createFlagsV2 ty core h enc boot =
       .ok ((ty + core * 2 ^ 4 + h * 2 ^ 8 + (if enc then 1 else 0) * 2 ^ 12 + boot * 2 ^ 16 : Nat) : Int) := by
-  have e1 : (ty ||| core <<< (4 : Int).toNat) = ty + core * 2 ^ 4 := or_shl ty core 4 ht
-  have e2 : ((ty + core * 2 ^ 4) ||| h <<< (8 : Int).toNat) = ty + core * 2 ^ 4 + h * 2 ^ 8 := or_shl _ h 8 (by omega)
-  cases enc
-  · have e3 : ((ty + core * 2 ^ 4 + h * 2 ^ 8) ||| 0) = ty + core * 2 ^ 4 + h * 2 ^ 8 := Nat.or_zero _
-    have e4 : ((ty + core * 2 ^ 4 + h * 2 ^ 8) ||| boot <<< (16 : Int).toNat) = ty + core * 2 ^ 4 + h * 2 ^ 8 + boot * 2 ^ 16 :=
-      or_shl _ boot 16 (by omega)
-    simp only [AhabConsts.createFlagsV2, pyShl_nat, pyOr_nat, Bool.false_eq_true, if_false]
-    rw [show ((0 : Int)) = ((0 : Nat) : Int) from rfl]
-    simp only [pyOr_nat, e1, e2, e3, e4]
-    simp
-  · have e3 : ((ty + core * 2 ^ 4 + h * 2 ^ 8) ||| 1 <<< (12 : Int).toNat) = ty + core * 2 ^ 4 + h * 2 ^ 8 + 1 * 2 ^ 12 :=
-      or_shl _ 1 12 (by omega)
-    have e4 : ((ty + core * 2 ^ 4 + h * 2 ^ 8 + 1 * 2 ^ 12) ||| boot <<< (16 : Int).toNat) =
-        ty + core * 2 ^ 4 + h * 2 ^ 8 + 1 * 2 ^ 12 + boot * 2 ^ 16 := or_shl _ boot 16 (by omega)
-    simp only [AhabConsts.createFlagsV2, if_true]
-    rw [show ((1 : Int)) = ((1 : Nat) : Int) from rfl]
-    simp only [pyShl_nat, pyOr_nat, e1, e2, e3, e4]
-
+  have he : (if enc = true then 1 else 0 : Nat) ≤ 1 := by cases enc <;> simp
+  rw [createFlagsV2_or, or_shl ty core 4 ht, or_shl _ h 8 (by omega), or_shl _ _ 12 (by omega), or_shl _ boot 16 (by omega)]
 
 theorem flags_arith_v1 (ty core h boot e : Nat) (ht : ty < 16) (hc : core < 16) (hh : h < 8) (he : e ≤ 1) (hb : boot < 32768) :
     ty + core * 16 + h * 256 + e * 2048 + boot * 65536 < 4294967296 ∧
